@@ -343,4 +343,5 @@ def jobs(tier):
     out += mk('C14', 'deep4/ff', S.deep4('ff'))
     out += mk('C14', 'deep4/ff/wild_raise', S.deep4('ff', wild_raise=True))
     out += matrix_jobs('C14', 'm3', tier)
+    out += matrix_jobs('C14', 'm4', tier)
     return flat(out)
